@@ -29,6 +29,9 @@ DIRECTED = [
     # counterexample of History_explicitmass.cfg, the code before fix d373db3), also when the object is mutated before the first use
     [("set_global", 0, ["reg", 1]), ("create", 1, ["slp", "P"]), ("strong_form", 1, [])],
     [("create", 1, ["idt", "P"]), ("create", 2, ["idt", "G"]), ("mutate_params", 0, ["reg", 1]), ("strong_form", 1, []), ("strong_form", 2, []), ("mass_matrix", 0, [])],
+    # a factory that hands the call on to another family (Helmholtz hypersingular with a purely imaginary wavenumber -> modified Helmholtz)
+    [("mutate_params", 0, ["reg", 1]), ("create", 1, ["mhyp", "P"]), ("weak_form", 1, []), ("create", 2, ["mhyp", "G"]), ("weak_form", 2, []), ("strong_form", 1, [])],
+    [("mutate_params", 0, ["sing", 3]), ("create", 1, ["mhyp", "P"]), ("set_global", 0, ["sing", 3]), ("mutate_params", 0, ["sing", 4]), ("weak_form", 1, [])],
     # FMM operators: the interface cache is keyed by the order; clear_fmm_cache in between (counterexample of History_fmmunkeyed.cfg first)
     [("create", 1, ["fmm", "G"]), ("weak_form", 1, []), ("set_global", 0, ["reg", 1]), ("create", 2, ["fmm", "G"]), ("weak_form", 2, []), ("weak_form", 1, [])],
     [("create", 1, ["fmm", "P"]), ("mutate_params", 0, ["reg", 1]), ("weak_form", 1, []), ("clear_fmm", 0, []), ("create", 2, ["fmm", "G"]), ("weak_form", 2, [])],
